@@ -467,7 +467,10 @@ class TraitType(BaseTraitHandler):
                 trait.post_setattr = post_setattr
                 trait.is_mapped = self.is_mapped
 
-            comparison_mode = metadata.pop("comparison_mode", None)
+            # Note: the metadata dictionary belongs to this TraitType, which
+            # may be turned into a CTrait more than once (subclass overrides,
+            # one instance bound to several names): do not modify it here.
+            comparison_mode = metadata.get("comparison_mode")
             if comparison_mode is not None:
                 trait.comparison_mode = comparison_mode
 
@@ -478,6 +481,9 @@ class TraitType(BaseTraitHandler):
         trait.handler = self
 
         trait.__dict__ = metadata.copy()
+        if trait.__dict__.get("type") != "property":
+            # comparison_mode is an attribute of the CTrait, not metadata.
+            trait.__dict__.pop("comparison_mode", None)
 
         return trait
 
